@@ -9,12 +9,12 @@ import "fmt"
 
 // X is one execution.
 type X struct {
-	prefix  []int
-	Choices []int
-	Ns      []int
-	Labels  []string
-	Costs   []int8
-	noLabel bool
+	prefix   []int
+	Choices  []int
+	Ns       []int
+	Labels   []string
+	Costs    []int8
+	noLabel  bool
 	NoLabels bool // do not record labels (hot paths)
 	Owned    bool // false for nodes above the sharding frontier in shards that do not own them: run, but do not count or judge
 }
@@ -78,19 +78,19 @@ type Stats struct {
 }
 
 type Explorer struct {
-	Bound    int                 // maximum number of deviations (use a large number for depth-bounded full search)
-	MaxDepth int                 // ignore alternatives at choice points beyond this index (0 = unlimited)
-	Body     func(x *X)          // runs one execution and judges it (the harness keeps its own verdict)
-	Mine     func() bool         // optional sharding predicate, asked once per first-level subtree
-	Stop     func() bool         // optional deadline
-	Replay   []int               // if non-nil: run exactly this choice list and nothing else
+	Bound    int         // maximum number of deviations (use a large number for depth-bounded full search)
+	MaxDepth int         // ignore alternatives at choice points beyond this index (0 = unlimited)
+	Body     func(x *X)  // runs one execution and judges it (the harness keeps its own verdict)
+	Mine     func() bool // optional sharding predicate, asked once per first-level subtree
+	Stop     func() bool // optional deadline
+	Replay   []int       // if non-nil: run exactly this choice list and nothing else
 	NoLabels bool
 	// Sharding: nodes with fewer than ShardDepth non-default choices are executed by every shard (owned by the
 	// Primary one only); each subtree rooted at a node with exactly ShardDepth non-default choices is explored by the
 	// shard for which Mine() returns true. ShardDepth 0 disables sharding inside the explorer.
 	ShardDepth int
 	Primary    bool
-	Stats    Stats
+	Stats      Stats
 }
 
 func (e *Explorer) run(prefix []int, owned bool) *X {
